@@ -97,7 +97,7 @@ fn vq_c09_rtt_loss_time_threshold() {
 // ---------------------------------------------------------------------------------------------------
 // PTO period: one harness per concrete backoff (a symbolic factor is SAT-hard, DESIGN 7), formula on the
 // u64 microseconds the code computes, then pto_period() == from_micros(max(base, 1 ms)).
-//@ harness props=C09 tier=thorough level=bounded timeout=1800 bound="backoff = 1; smoothed_rtt < 4 s, rttvar < 250 ms; max_ack_delay whole ms < 2^14"
+//@ harness props=C09 tier=thorough level=bounded timeout=3000 bound="backoff = 1; smoothed_rtt < 4 s, rttvar < 250 ms; max_ack_delay whole ms < 2^14"
 //@ fn RttEstimator::pto_period
 //@ fn RttEstimator::calculate_base_pto_micros
 #[kani::proof]
@@ -136,7 +136,7 @@ fn pto_formula(backoff: u32) {
 }
 
 
-//@ harness props=C09 tier=thorough level=bounded timeout=1800 bound="backoff = 2; smoothed_rtt < 4 s, rttvar < 250 ms; max_ack_delay whole ms < 2^14"
+//@ harness props=C09 tier=thorough level=bounded timeout=3000 bound="backoff = 2; smoothed_rtt < 4 s, rttvar < 250 ms; max_ack_delay whole ms < 2^14"
 //@ fn RttEstimator::pto_period
 //@ fn RttEstimator::calculate_base_pto_micros
 #[kani::proof]
@@ -145,7 +145,7 @@ fn vq_c09_rtt_pto_period_backoff_2() {
     pto_formula(2);
 }
 
-//@ harness props=C09 tier=thorough level=bounded timeout=1800 bound="backoff = 4; smoothed_rtt < 4 s, rttvar < 250 ms; max_ack_delay whole ms < 2^14"
+//@ harness props=C09 tier=thorough level=bounded timeout=3000 bound="backoff = 4; smoothed_rtt < 4 s, rttvar < 250 ms; max_ack_delay whole ms < 2^14"
 //@ fn RttEstimator::pto_period
 //@ fn RttEstimator::calculate_base_pto_micros
 #[kani::proof]
@@ -154,7 +154,7 @@ fn vq_c09_rtt_pto_period_backoff_4() {
     pto_formula(4);
 }
 
-//@ harness props=C09 tier=thorough level=bounded timeout=1800 bound="backoff = 8; smoothed_rtt < 4 s, rttvar < 250 ms; max_ack_delay whole ms < 2^14"
+//@ harness props=C09 tier=thorough level=bounded timeout=3000 bound="backoff = 8; smoothed_rtt < 4 s, rttvar < 250 ms; max_ack_delay whole ms < 2^14"
 //@ fn RttEstimator::pto_period
 //@ fn RttEstimator::calculate_base_pto_micros
 #[kani::proof]
@@ -163,7 +163,7 @@ fn vq_c09_rtt_pto_period_backoff_8() {
     pto_formula(8);
 }
 
-//@ harness props=C09 tier=thorough level=bounded timeout=1800 bound="backoff = 64; smoothed_rtt < 4 s, rttvar < 250 ms; max_ack_delay whole ms < 2^14"
+//@ harness props=C09 tier=thorough level=bounded timeout=3000 bound="backoff = 64; smoothed_rtt < 4 s, rttvar < 250 ms; max_ack_delay whole ms < 2^14"
 //@ fn RttEstimator::pto_period
 //@ fn RttEstimator::calculate_base_pto_micros
 #[kani::proof]
@@ -172,7 +172,7 @@ fn vq_c09_rtt_pto_period_backoff_64() {
     pto_formula(64);
 }
 
-//@ harness props=C09 tier=thorough level=bounded timeout=1800 bound="backoff in {1,2,4,...,2^15}; estimator durations < 4 s"
+//@ harness props=C09 tier=thorough level=bounded timeout=3000 bound="backoff in {1,2,4,...,2^15}; estimator durations < 4 s"
 //@ fn RttEstimator::calculate_base_pto_micros
 //@ fn RttEstimator::pto_period
 #[kani::proof]
@@ -280,7 +280,7 @@ fn vq_c09_rtt_update_later_sample_bookkeeping() {
     kani::cover!(true, "reach:end");
 }
 
-//@ harness props=C09 tier=thorough level=bounded timeout=1800 bound="sample, ack_delay, estimator durations < 4 s (ns resolution)"
+//@ harness props=C09 tier=thorough level=bounded timeout=3000 bound="sample, ack_delay, estimator durations < 4 s (ns resolution)"
 //@ fn RttEstimator::update_rtt
 //@ fn weighted_average
 #[kani::proof]
@@ -297,7 +297,7 @@ fn vq_c09_rtt_update_later_sample_srtt() {
     kani::cover!(true, "reach:end");
 }
 
-//@ harness props=C09 tier=thorough level=bounded timeout=1800 bound="sample, ack_delay, estimator durations < 4 s (ns resolution)"
+//@ harness props=C09 tier=thorough level=bounded timeout=3000 bound="sample, ack_delay, estimator durations < 4 s (ns resolution)"
 //@ fn RttEstimator::update_rtt
 //@ fn weighted_average
 #[kani::proof]
@@ -332,7 +332,7 @@ fn vq_c09_rtt_pto_period_at_least_granularity() {
 }
 
 // ---------------------------------------------------------------------------------------------------
-//@ harness props=C09 tier=thorough level=bounded timeout=1800 bound="smoothed_rtt < 4 s, rttvar < 250 ms; max_ack_delay whole ms < 2^14"
+//@ harness props=C09 tier=thorough level=bounded timeout=3000 bound="smoothed_rtt < 4 s, rttvar < 250 ms; max_ack_delay whole ms < 2^14"
 //@ fn RttEstimator::persistent_congestion_threshold
 #[kani::proof]
 #[kani::unwind(3)]
